@@ -1980,6 +1980,24 @@ impl Transaction {
                 new_indices,
                 removed_indices,
             } => {
+                // A column drop or cast committed after the index was built removes the
+                // indexed field from the schema: the index can no longer be published.
+                if let Some(index) = new_indices.iter().find(|index| {
+                    index
+                        .fields
+                        .iter()
+                        .any(|field_id| schema.field_by_id(*field_id).is_none())
+                }) {
+                    return Err(Error::RetryableCommitConflict {
+                        version: current_manifest.map(|m| m.version).unwrap_or_default(),
+                        source: format!(
+                            "Index {} covers a field that a concurrent transaction removed from the schema. Please retry.",
+                            index.name
+                        )
+                        .into(),
+                        location: location!(),
+                    });
+                }
                 final_fragments.extend(maybe_existing_fragments?.clone());
                 final_indices.retain(|existing_index| {
                     !new_indices
